@@ -471,3 +471,83 @@ func withTimeout(d time.Duration, f func() string) (string, bool) {
 		return "hang", true
 	}
 }
+
+// orphanRaw renders the branch bookkeeping of tree.sqlite: the orphan rows (version.sequence@at),
+// the keys of the branch rows of every tree_<shard> table (version.sequence) and the root rows
+// (version, c = checkpoint): oraw(o=..;b=..;r=..), each part sorted.
+func orphanRaw(dir string) (string, error) {
+	conn, err := sqlite3.Open("file:" + filepath.Join(dir, "tree.sqlite") + "?mode=ro")
+	if err != nil {
+		return "", err
+	}
+	defer conn.Close()
+	query := func(sql string, f func(*sqlite3.Stmt) error) error {
+		q, err := conn.Prepare(sql)
+		if err != nil {
+			return err
+		}
+		defer q.Close()
+		for {
+			ok, err := q.Step()
+			if err != nil {
+				return err
+			}
+			if !ok {
+				return nil
+			}
+			if err := f(q); err != nil {
+				return err
+			}
+		}
+	}
+	var os, bs, rs, tables []string
+	if err := query("SELECT version, sequence, at FROM orphan ORDER BY version, sequence, at", func(q *sqlite3.Stmt) error {
+		var v, sq, at int64
+		if err := q.Scan(&v, &sq, &at); err != nil {
+			return err
+		}
+		os = append(os, fmt.Sprintf("%d.%d@%d", v, sq, at))
+		return nil
+	}); err != nil {
+		return "", err
+	}
+	if err := query("SELECT name FROM sqlite_master WHERE type = 'table' AND name LIKE 'tree_%'", func(q *sqlite3.Stmt) error {
+		var n string
+		if err := q.Scan(&n); err != nil {
+			return err
+		}
+		tables = append(tables, n)
+		return nil
+	}); err != nil {
+		return "", err
+	}
+	for _, tb := range tables {
+		if err := query("SELECT version, sequence FROM "+tb, func(q *sqlite3.Stmt) error {
+			var v, sq int64
+			if err := q.Scan(&v, &sq); err != nil {
+				return err
+			}
+			bs = append(bs, fmt.Sprintf("%d.%d", v, sq))
+			return nil
+		}); err != nil {
+			return "", err
+		}
+	}
+	sort.Strings(bs)
+	if err := query("SELECT version, checkpoint FROM root ORDER BY version", func(q *sqlite3.Stmt) error {
+		var v int64
+		var cp bool
+		if err := q.Scan(&v, &cp); err != nil {
+			return err
+		}
+		c := ""
+		if cp {
+			c = "c"
+		}
+		rs = append(rs, fmt.Sprintf("%d%s", v, c))
+		return nil
+	}); err != nil {
+		return "", err
+	}
+	return "oraw(o=" + strings.Join(os, ",") + ";b=" + strings.Join(bs, ",") + ";r=" + strings.Join(rs, ",") + ")", nil
+}
